@@ -21,7 +21,7 @@
 #endif
 
 #define PRE(X)  PRE_SP(X) X(DUP2IN_MAY_FAIL || osm_tape.fa_dup2_in_err[g_a] == 0)
-#define POST(X) POST_SP(X) CANARY(X, !(RET == 0 && g_a == 1 && !g_last && g_nbase == 3))
+#define POST(X) POST_SP(X) CANARY(X, !(RET == 0 && g_a == 1 && !g_last))
 
 void
 osm_at_exit(int status)
